@@ -350,4 +350,9 @@ def run(rep, db, tier, seed):
         RC.run_all(rep, db, tier, ('C02',), handlers=('on_proposal',))
     except Unmodelled as u:
         rep.add(Obligation('on_proposal high-vote obligation', 'inconclusive', str(u)[:500]))
+    try:
+        from props import replica_loop
+        replica_loop.run(rep, db, tier, ('C02',))
+    except Exception as u:
+        rep.add(Obligation('proposer: re-proposal carries no payload', 'inconclusive', f'{type(u).__name__}: {u}'[:600]))
     rep.extra['explanation'] = 'one inductive step of the re-proposal rule and conformance to the specification on the real MIR, for all weights/votes/certificates within the committee-size bound'
